@@ -674,10 +674,7 @@ class DataIndex(BaseDataIndex, MutableMapping[DataIndexKey, DataIndexEntry]):
                 item.meta = self._get_meta(key, item)
             return item
 
-        lprefix = self._trie.longest_prefix(key)
-        if lprefix is not None:
-            dir_key, dir_entry = lprefix
-            self._load(dir_key, dir_entry)
+        self._load_enclosing_dir(key)
 
         return self._trie[key]
 
@@ -745,10 +742,7 @@ class DataIndex(BaseDataIndex, MutableMapping[DataIndexKey, DataIndexEntry]):
         shallow: bool = False,
     ) -> Iterator[tuple[DataIndexKey, DataIndexEntry]]:
         if prefix:
-            item = self._trie.longest_prefix(prefix)
-            if item:
-                key, entry = item
-                self._load(key, entry)
+            self._load_enclosing_dir(prefix)
 
         for key, entry in self._trie.items(prefix=prefix, shallow=shallow):
             self._load(key, entry)
@@ -756,6 +750,16 @@ class DataIndex(BaseDataIndex, MutableMapping[DataIndexKey, DataIndexEntry]):
 
     def iterkeys(self, *args, **kwargs):
         return self._trie.keys(*args, **kwargs)
+
+    def _load_enclosing_dir(self, key):
+        """Load the not yet loaded directory entry that `key` lies in, if any."""
+        item = self._trie.longest_prefix(key)
+        if not item:
+            # NOTE: not every trie reports the root node as a prefix
+            root = self._trie.get(())
+            item = ((), root) if root else None
+        if item:
+            self._load(*item)
 
     def _ensure_loaded(self, prefix):
         entry = self.get(prefix)
